@@ -439,6 +439,10 @@ func (w *World) callbacks(h *StoreH, cmpOf func(name string) int) gkvlite.StoreC
 				_, err := wr.WriteAt(v, offset)
 				return err
 			}
+			chunk := chunk
+			if len(v)/chunk > 48 {
+				chunk = len(v)/48 + 1 // big values: at most ~48 calls
+			}
 			for p := 0; p < len(v); p += chunk {
 				e := p + chunk
 				if e > len(v) {
@@ -455,6 +459,10 @@ func (w *World) callbacks(h *StoreH, cmpOf func(name string) int) gkvlite.StoreC
 		cb.ItemValRead = func(c *gkvlite.Collection, i *gkvlite.Item, r io.ReaderAt, offset int64, valLength uint32) error {
 			w.yield("cb-valread")
 			v := make([]byte, valLength)
+			chunk := chunk
+			if len(v)/chunk > 48 {
+				chunk = len(v)/48 + 1
+			}
 			for p := 0; p < len(v); p += chunk {
 				e := p + chunk
 				if e > len(v) {
